@@ -6,9 +6,11 @@ pub mod exec;
 pub mod gen;
 pub mod model;
 pub mod ops;
+pub mod ptrun;
 pub mod reffmt;
 pub mod rt;
 pub mod scratch;
+pub mod sup;
 
 use engine::{drive, Args};
 
@@ -17,12 +19,15 @@ pub fn run_property(id: &str, args: &Args) -> i32 {
     match id {
         "C01" => drive(&engine::c01::C01, args),
         "C02" => drive(&engine::props_write::c02(), args),
+        "C03" => drive(&engine::c03::C03, args),
+        "C04" => drive(&engine::c04::C04, args),
         "C05" => drive(&engine::c05::C05, args),
         "C06" => drive(&engine::c06::C06, args),
         "C08" => drive(&engine::props_write::c08(), args),
         "C09" => drive(&engine::c09::C09, args),
         "C10" => drive(&engine::c10::C10, args),
         "C11" => drive(&engine::props_write::c11(), args),
+        "C14" => drive(&engine::props_misc::c14(), args),
         "C16" => drive(&engine::props_write::c16(), args),
         "C18" => drive(&engine::props_damage::c18(), args),
         _ => {
